@@ -244,6 +244,7 @@ def sk8(iso, L, cfg, hook=_nohook, fp=None):
     iso.add_fp(fp, L[0], iso_path='/ISOONLY.;1', rr_name=rr('isoonly')); hook(0)
     iso.add_fp(fp, L[1], joliet_path='/j\u00f6li\u00e9t \u6587\u4ef6'); hook(1)
     iso.add_joliet_directory('/jdir'); hook(2)
+    iso.add_joliet_directory('/jdir/\u00e9t\u00e9 \u65e5\u672c'); hook(2)
     iso.add_directory(iso_path='/IDIR', rr_name=rr('idir')); hook(3)
     iso.add_fp(fp, L[2], iso_path='/IDIR/BOTH.;1', rr_name=rr('both'), joliet_path='/jdir/' + 'n' * 64); hook(4)
     iso.add_hard_link(iso_old_path='/ISOONLY.;1', joliet_new_path='/jdir/link to iso'); hook(5)
@@ -252,7 +253,25 @@ def sk8(iso, L, cfg, hook=_nohook, fp=None):
     return {'files': {'/ISOONLY.;1': L[0], '/IDIR/BOTH.;1': L[2], '/TMP.;1': L[0]}, 'dirs': ['/IDIR'], 'steps': 8}
 
 
-SKELETONS = {'sk1': sk1, 'sk2': sk2, 'sk3': sk3, 'sk4': sk4, 'sk5': sk5, 'sk6': sk6, 'sk7': sk7, 'sk8': sk8}
+def sk9(iso, L, cfg, hook=_nohook, fp=None, k=50):
+    """a directory that GROWS past one sector while it already holds a sub-directory sorting after its files, then gets another
+    sub-directory AFTER it has grown (".." records must carry the parent's current length), nested two levels   (3 lengths cycled)"""
+    fp = fp or h.InFP()
+    n = 0
+    iso.add_directory(**dkw(cfg, 'BIG')); hook(n); n += 1
+    iso.add_directory(**dkw(cfg, 'ZSUB', '/BIG')); hook(n); n += 1
+    iso.add_directory(**dkw(cfg, 'DEEP', '/BIG/ZSUB')); hook(n); n += 1
+    for i in range(k):
+        ln = L[0] if i == 0 else 10      # one file of symbolic length, the other fillers concrete (the growth is driven by record count)
+        iso.add_fp(fp, ln, **fkw(cfg, 'F%03d' % i, '/BIG')); hook(n); n += 1
+    iso.add_directory(**dkw(cfg, 'ZLATE', '/BIG')); hook(n); n += 1
+    files = {}
+    for i in range(k):
+        files['/BIG/F%03d.;1' % i] = L[0] if i == 0 else 10
+    return {'files': files, 'dirs': ['/BIG', '/BIG/ZSUB', '/BIG/ZSUB/DEEP', '/BIG/ZLATE'], 'steps': n}
+
+
+SKELETONS = {'sk1': sk1, 'sk2': sk2, 'sk3': sk3, 'sk4': sk4, 'sk5': sk5, 'sk6': sk6, 'sk7': sk7, 'sk8': sk8, 'sk9': sk9}
 
 
 # ---- object collection (what occupies which sectors) ----------------------------------------------
